@@ -201,6 +201,7 @@ func ExecReader(shape string, rs io.ReadSeeker, limit int, setAPI func(string)) 
 //	"count"    Next without Scan (a caller that only counts rows)
 //	"alt"      Scan only every other row
 //	"abandon"  stop after half of the rows and never look at the reader again
+//	"errcheck" the documented loop, with Error() also called before the loop and after every row
 //
 // All of them are legal call histories of one instance; what they leave behind
 // in the process must not matter to other instances.
@@ -240,6 +241,9 @@ func ExecReaderMode(shape string, rs io.ReadSeeker, limit int, setAPI func(strin
 	n := 0
 	_, pan, capped = guard(func() error {
 		res.Rows = r.Rows()
+		if mode == "errcheck" {
+			_ = r.Error()
+		}
 		for {
 			cur = "Next"
 			setAPI(cur) // also an API-call boundary (scheduling point in C13)
@@ -258,6 +262,9 @@ func ExecReaderMode(shape string, rs io.ReadSeeker, limit int, setAPI func(strin
 			cur = "Scan"
 			setAPI(cur)
 			res.Recs = append(res.Recs, r.Scan())
+			if mode == "errcheck" {
+				_ = r.Error()
+			}
 			if mode == "abandon" && int64(n) >= (res.Rows+1)/2 {
 				return nil
 			}
